@@ -20,7 +20,8 @@ Emits Gen/CApiGetters.lean (namespace Chewing.Gen.CApiGetters) — what `Model/C
       NULL answer   : "ERROR" / "FALSE" (the `as_ref_or_return!` value), "empty_heap" (`CString::default().into_raw()`
                       registered as owned), "global_empty" (`global_empty_cstr()`).
   * enumShapes — the stateful enumeration protocol (chewing_cand_Enumerate / hasNext / String / String_static /
-      string_by_index / string_by_index_static, chewing_interval_Enumerate / hasNext / Get): (function, 1) when the body is
+      string_by_index / string_by_index_static, chewing_interval_Enumerate / hasNext / Get) and the deprecated / composite
+      getters chewing_zuin_Check / zuin_String / get_phoneSeq / get_phoneSeqLen: (function, 1) when the body is
       EXACTLY the reviewed text whose meaning `Model/CApiGetters.lean` writes out (fail closed otherwise).
 
 Every body must be one of the recognised shapes: anything else raises ExtractError (fail closed).
@@ -84,6 +85,17 @@ ENUM_BODIES = {
     "chewing_interval_hasNext":
         "letctx=as_mut_or_return!(ctx,ERROR);ctx.interval_iter.as_mut().map_or(FALSE,|it|matchit.peek(){"
         "Some(_)=>TRUE,None=>FALSE,})",
+    "chewing_zuin_Check": "unsafe{chewing_bopomofo_Check(ctx)^1}",
+    "chewing_zuin_String":
+        "letctx=as_ref_or_return!(ctx," + EMPTY_HEAP + ");letsyllable=ctx.editor.syllable_buffer_display();"
+        "unsafe{*zuin_count=syllable.chars().count()asc_int;}letcstr=matchCString::new(syllable){Ok(cstr)=>cstr,"
+        "Err(_)=>returnnull_mut(),};owned_into_raw(Owned::CString,cstr.into_raw())",
+    "chewing_get_phoneSeq":
+        "letctx=as_ref_or_return!(ctx,null_mut());letsyllables:Vec<_>=ctx.editor.symbols().iter().cloned()"
+        ".filter(Symbol::is_syllable).map(|sym|sym.to_syllable().unwrap().to_u16()).collect();letlen=syllables.len();"
+        "letptr=Box::into_raw(syllables.into_boxed_slice());owned_into_raw(Owned::CUShortSlice(len),ptr.cast())",
+    "chewing_get_phoneSeqLen":
+        "letctx=as_ref_or_return!(ctx,ERROR);ctx.editor.symbols().iter().cloned().filter(Symbol::is_syllable).count()asc_int",
     "chewing_interval_Get":
         "letctx=as_mut_or_return!(ctx);letit=unsafe{matchit.as_mut(){Some(it)=>it,None=>return,}};"
         "ifletSome(iter)=&mutctx.interval_iter{ifletSome(interval)=iter.next(){it.from=interval.startasi32;"
